@@ -21,6 +21,7 @@ RULE = (
     "with seeded tails (also truncated); make_const_op on all boundaries and seeded values; a case "
     "is distinct by (class, operands, byteorder, ptr) or (bytes, byteorder, ptr); all are non-trivial "
     "except exact duplicates"
+    "; make_const_op on every power of two up to 2^65 and its neighbours, both signs"
 )
 ASSUMPTIONS = [
     "leb128 package and int.to_bytes/from_bytes are exercised through the real code; their Lean models are tied by the same correspondence",
